@@ -82,31 +82,6 @@ theorem fnCallLz_agree (w : World) (n : String) {args args' : List Den} {lams la
           | cons _ _ => rfl
   · rw [evalAll_agree ha, evalAll_agree hk]
 
-theorem callSem_agree (w : World) {h h' : Head} {args args' : List Den} {lams lams' : List LamD}
-    (kwn : List String) {kwv kwv' : List Den} {env env' : Env}
-    (hh : HeadAgree env env' h h') (ha : All2 (DAgree env env') args args')
-    (hk : All2 (DAgree env env') kwv kwv') (hnop : ∀ r m, h = .meth r m → m ∉ opNames) (hnfn : ∀ n, h ≠ .fn n) :
-    callSem w h args lams kwn kwv env = callSem w h' args' lams' kwn kwv' env' := by
-  cases h with
-  | other => cases h' <;> simp only [HeadAgree] at hh; rfl
-  | fn n => exact absurd rfl (hnfn n)
-  | meth r m =>
-    cases h' <;> simp only [HeadAgree] at hh
-    obtain ⟨rfl, hr⟩ := hh
-    have := hnop r m rfl
-    simp only [callSem, this, if_false]
-    rw [hr, evalAll_agree ha, evalAll_agree hk]
-  | lamH ps b =>
-    cases h' <;> simp only [HeadAgree] at hh
-    simp only [callSem]
-    rw [evalAll_agree ha, evalAll_agree hk]
-    cases evalAll args' env' with
-    | error e => rfl
-    | ok vs =>
-      cases evalAll kwv' env' with
-      | error e => rfl
-      | ok kvs => exact hh vs kwn kvs
-
 theorem callSemLz_agree (w : World) {h h' : Head} {args args' : List Den} {lams lams' : List LamD}
     (kwn : List String) {kwv kwv' : List Den} {env env' : Env}
     (hh : HeadAgree env env' h h') (ha : All2 (DAgree env env') args args')
@@ -115,8 +90,7 @@ theorem callSemLz_agree (w : World) {h h' : Head} {args args' : List Den} {lams 
   cases h with
   | other =>
     cases h' <;> simp only [HeadAgree] at hh
-    simp only [callSemLz]
-    exact callSem_agree w kwn (by simp [HeadAgree]) ha hk (by intro _ _ h; cases h) (by intro _ h; cases h)
+    rfl
   | fn n =>
     cases h' <;> simp only [HeadAgree] at hh
     subst hh
@@ -128,20 +102,25 @@ theorem callSemLz_agree (w : World) {h h' : Head} {args args' : List Den} {lams 
   | meth r m =>
     cases h' with
     | meth r' m' =>
-      have hh' := hh
       simp only [HeadAgree] at hh
       obtain ⟨rfl, hr⟩ := hh
       simp only [callSemLz]
       split
       · exact fnCallLz_agree w m [] (.cons hr ha) hl .nil
-      · rename_i hm
-        exact callSem_agree w kwn hh' ha hk (by intro _ _ h; cases h; exact hm) (by intro _ h; cases h)
+      · simp only []
+        rw [hr, evalAll_agree ha, evalAll_agree hk]
     | _ => simp only [HeadAgree] at hh
   | lamH ps b =>
     cases h' with
     | lamH ps' b' =>
-      simp only [callSemLz]
-      exact callSem_agree w kwn hh ha hk (by intro _ _ h; cases h) (by intro _ h; cases h)
+      simp only [HeadAgree] at hh
+      simp only [callSemLz, evalAll_agree ha, evalAll_agree hk]
+      cases evalAll args' env' with
+      | error e => rfl
+      | ok vs =>
+        cases evalAll kwv' env' with
+        | error e => rfl
+        | ok kvs => exact hh vs kwn kvs
     | _ => simp only [HeadAgree] at hh
 
 theorem compSemLz_agree {x x' : String} {e e' i i' : Den} {ifs ifs' : List Den} (a : Bool) {env env' : Env}
